@@ -172,7 +172,7 @@ def good : AggFun → List AggFun
   | .min => [.min]
   | .max => [.max]
   | .count => [.count, .sum, .sump]
-  | .sum => [.sum, .sump]
+  | .sum => [.sum]  -- fix (known_findings.json `fixed:`): a negative total is ignored by an outer #sum+
   | .sump => [.sum, .sump]
 
 /-- `Function(LOC, "unique", [], False)` -/
@@ -222,6 +222,11 @@ def inlineBodyAggregate (sg : Single) (atom : Atom) (uv : UniqueVars) : Except S
       | (.bagg _ _ ilg ifn ielems irg) :: _ => do
         let resultFn := if ifn == .sum then AggFun.sum else f
         if !(good ifn).contains f then return (atom, uv)
+        -- fix (known_findings.json `fixed:`): an inner #sum+ ignores negative weights, an outer #sum would count them
+        if ifn == .sump && f == .sum && !(ielems.all fun e =>
+            match e.1 with
+            | .sym (.num n) :: _ => n ≥ 0
+            | _ => false) then return (atom, uv)
         let an := analyticsOfGuards ilg irg
         match an.equalVars with
         | [] => .error "py: IndexError: equal_variable_bound[0]"
